@@ -101,8 +101,11 @@ def generate(rng, tier="quick"):
     scn = {"property": PROP, "config": {"psets": psets, "nodes": nodes}, "steps": steps,
            "mode": mode, "sched_seed": rng.randrange(1 << 30)}
     if mode == "threads":
-        scn["mean_gap"] = rng.choice([20, 50, 200, 500, 5000, 0])
+        scn["mean_gap"] = rng.choice([5, 20, 50, 200, 500, 5000, 0])
         scn["max_preempt"] = 40
+        kinds = set(p["group"]["kind"] for p in psets)
+        big = 40000 if "ed25519" in kinds else 3000
+        scn["long_jump"] = rng.choice([0, big, big])
     return scn
 
 
@@ -171,13 +174,13 @@ def run_coop(config, steps, order_seed=None):
     return w
 
 
-def run_threads(config, steps, sched_seed, mean_gap, max_preempt):
+def run_threads(config, steps, sched_seed, mean_gap, max_preempt, long_jump=0):
     lib = loader.load()
     w = sim.World(config, shadow=False)
     w.scn = {"config": config}
     lanes = lanes_of(steps, len(w.nodes))
     rng = random.Random(sched_seed)
-    sched = BatonScheduler(rng, mean_gap, max_preempt, os.path.join(lib.src, "spake2") + os.sep)
+    sched = BatonScheduler(rng, mean_gap, max_preempt, os.path.join(lib.src, "spake2") + os.sep, long_jump)
 
     def body_for(i):
         def body(s, tid):
@@ -289,8 +292,10 @@ def interleaved_job(scn):
         cfg, steps = scn["config"], scn["steps"]
         before = shared_snapshot(cfg)
         if scn.get("mode") == "threads":
-            wa = run_threads(cfg, steps, scn["sched_seed"], scn.get("mean_gap", 200), scn.get("max_preempt", 40))
-            wb = run_threads(cfg, steps, scn["sched_seed"] + 1, scn.get("mean_gap", 200), scn.get("max_preempt", 40))
+            wa = run_threads(cfg, steps, scn["sched_seed"], scn.get("mean_gap", 200), scn.get("max_preempt", 40),
+                             scn.get("long_jump", 0))
+            wb = run_threads(cfg, steps, scn["sched_seed"] + 1, scn.get("mean_gap", 200), scn.get("max_preempt", 40),
+                             scn.get("long_jump", 0))
         else:
             wa = run_coop(cfg, steps)
             wb = run_coop(cfg, steps, scn["sched_seed"])
